@@ -82,6 +82,11 @@ def _accept_shape(lean_name):
             ("ready_gates_on_counter", _has(svc, "if self . conns . available (")),
             ("call_takes_guard", _has(svc, "self . conns . get ( )")),
             ("call_arms_service_timeout", _has(svc, "sleep ( self . handshake_timeout )") or _has(svc, "let dur = self . handshake_timeout ;")),
+            # every pending poll of the accept future polls the timer with the CALLER's context (so the timer keeps the
+            # waker of the most recent poll); native-tls wraps the handshake in tokio's `timeout`, which does the same
+            ("pending_poll_registers_callers_waker_with_timer",
+             _has(src, "Poll :: Pending => this . timeout . poll ( cx ) . map ( | _ | Err ( TlsError :: Timeout ) ) ,")
+             or _has(svc, "match timeout ( dur , acceptor . accept ( io ) ) . await {")),
         ]
         return _lean_facts(lean_name, facts), new + seth + clone + newsvc + svc
     return f
